@@ -150,6 +150,7 @@ def optDb (toks : List String) : Option Bool :=
   | some "1" => some true
   | some "2" => some true     -- the query function panics with an error value
   | some "3" => some true     -- … with a non-error value
+  | some "4" => some true     -- the query function calls runtime.Goexit
   | some "0" => some false
   | some _ => none
   | none => some false
@@ -600,8 +601,9 @@ def runSection (r : Report) (sec : Section) : Report := Id.run do
       let impl := joinSp obsToks
       -- `db=2` / `db=3`: the query function panics; for the model and the monitor that is a failing database call
       -- (nothing cached, no result), printed `panicked` instead of `dberr`
-      let pan := !conc && (l.op.contains "db=2" || l.op.contains "db=3")
-      if pan then r := r.addCover (if l.op.contains "db=2" then "query-panics-with-error-value" else "query-panics-with-non-error-value")
+      let pan := !conc && (l.op.contains "db=2" || l.op.contains "db=3" || l.op.contains "db=4")
+      if pan then r := r.addCover (if l.op.contains "db=2" then "query-panics-with-error-value"
+        else if l.op.contains "db=3" then "query-panics-with-non-error-value" else "query-calls-runtime-Goexit")
       let panTxt (t : String) : String := if pan && t.startsWith "dberr " then "panicked " ++ (t.drop 6).toString else t
       let unPan (toks : List String) : List String := match toks with
         | "panicked" :: rest => if pan then "dberr" :: rest else toks
